@@ -1,3 +1,7 @@
 import KalignModel.Props.C05
 import KalignModel.Props.C05Pipeline
-/-! aggregator: the reader/table/path theorems of C05 and the pipeline no-fault theorems, audited together by tools/props/c05.py -/
+import KalignModel.Props.SoftFloat
+import KalignModel.Props.C05PipelineSoft
+import KalignModel.Props.C05PipelineSoftL
+/-! aggregator: the reader/table/path theorems of C05, the pipeline no-fault theorems, the software binary32 and the monitor theorems on
+it, audited together by tools/props/c05.py -/
